@@ -12,7 +12,8 @@ VARIABLES base, prog, nb
 vars == <<base, prog, nb>>
 
 Bases ==
-    CASE Camp = "locals"  -> {[types |-> "plain", locals |-> l, customs |-> 0, comp |-> c] : l \in {"none", "a", "aa", "ab"}, c \in BOOLEAN}
+    CASE Camp = "locals"  -> {[types |-> "plain", locals |-> l, customs |-> 0, comp |-> c, imp2 |-> FALSE] : l \in {"none", "a", "aa", "ab"}, c \in BOOLEAN}
+                              \cup {[types |-> "plain", locals |-> "a", customs |-> 0, comp |-> FALSE, imp2 |-> TRUE]}
       [] Camp = "build"   -> {[types |-> t, locals |-> "a", customs |-> 0, comp |-> FALSE] : t \in {"plain", "rec"}}
                               \* the module inside a component: FunctionBuilder::finish_component
                               \cup {[types |-> "plain", locals |-> "a", customs |-> 0, comp |-> TRUE]}
@@ -79,7 +80,10 @@ CustOps ==
   \cup {[op |-> "cust_del", id |-> i] : i \in 0 .. 3}
   \cup {[op |-> "cust_mod", id |-> i, bytes |-> "bb0" \o ToString(nb)] : i \in 0 .. 3}
 
-Ops == CASE Camp = "locals" -> (IF base.comp THEN CompLocalOps ELSE LocalOps)
+Ops == CASE Camp = "locals" -> (IF base.comp THEN CompLocalOps
+                                ELSE IF base.imp2 THEN {[op |-> "add_local", f |-> f, ty |-> t, via |-> v] :
+                                                           f \in {0, 1}, t \in {"i32", "f64"}, v \in {"modifier", "modifier_many", "iter"}}
+                                ELSE LocalOps)
          [] Camp = "build" -> IF base.comp THEN {o \in BuildOps : ValidBuild(o)} \cup {o \in CompLocalOps : o.f = 2 /\ o.via = "iter" /\ o.ty = "v128"}
                               ELSE {o \in BuildOps : ValidBuild(o)} \cup ReplaceOps \cup {o \in LocalOps : o.f = 2 /\ o.via = "modifier" /\ o.ty = "f64"}
                                    \cup {[op |-> "conv", f |-> 2]}
@@ -116,7 +120,7 @@ Next == Step
 Spec == Init /\ [][Next]_vars
 
 \* properties of the Ideal list semantics (checked on a symbolic expected state)
-Sym == [types |-> <<"A", "B", "A">>, l1 |-> <<"I64">>, l2 |-> <<>>, p1 |-> 1, p2 |-> 0, funcs |-> <<>>, replaced |-> FALSE, converted |-> FALSE, rejected |-> FALSE,
+Sym == [types |-> <<"A", "B", "A">>, l1 |-> <<"I64">>, l2 |-> <<>>, p1 |-> 1, p2 |-> 0, funcs |-> <<>>, replaced |-> FALSE, converted |-> FALSE, rejected |-> FALSE, p0 |-> 2, l0 |-> <<"F64">>,
         globals |-> <<"g">>, mems |-> <<"m">>, data |-> <<"d">>, iglobals |-> <<>>, imems |-> <<>>,
         fh |-> <<TRUE, FALSE, FALSE>>, gh |-> <<FALSE>>, mh |-> <<FALSE>>, exports |-> {}, customs |-> <<[name |-> "c0", bytes |-> "x"], [name |-> "c1", bytes |-> "y"]>>]
 IdealOk ==
